@@ -414,6 +414,20 @@ func httpOracle(c *httpCase, body []byte) string {
 		}
 		elems = []interface{}{v}
 	}
+	// the protocol errors the property names, for bodies within the size limit: nothing but white space is an empty
+	// request (-32600), a body that is not JSON text is a parse error (-32700)
+	if _, isArr := v.([]interface{}); !isArr && (c.Max < 0 || int64(len(body)) <= c.Max) && utf8.Valid(body) {
+		tb := bytes.TrimSpace(body)
+		_, isErr, code, bad := checkObj(v)
+		if bad == "" {
+			switch {
+			case len(tb) == 0 && !(isErr && code == -32600):
+				return fmt.Sprintf("an empty request (%d bytes of white space) must be answered with -32600, got error=%v code=%v", len(body), isErr, code)
+			case len(tb) > 0 && !json.Valid(tb) && !(isErr && code == -32700):
+				return fmt.Sprintf("a body that is not JSON must be answered with -32700, got error=%v code=%v", isErr, code)
+			}
+		}
+	}
 	var gotIDs []string
 	for _, e := range elems {
 		id, isErr, code, bad := checkObj(e)
